@@ -1097,6 +1097,13 @@ def replay(path):
             ParseMCNPCell
         print('parse_material:', guarded(ParseMCNPCell.parse_material,
                                          inp['material']))
+        if 'options' in inp:
+            with impl.mip_parser(COMP_DECK) as parser:
+                worker = ParseMCNPCell(parser, None, {})
+                cell = guarded(worker.parse_one_cell_worker, 0, None,
+                               (inp['material'], '-1', inp['options']))
+            print('parse_one_cell_worker:', cell if cell[0] == 'err' else
+                  (cell[1].materialID, cell[1].density))
     if 'cells' in inp and 'vols' not in inp and 'deck' not in inp:
         cells = OrderedDict((int(k), v) for k, v in inp['cells'].items())
         for c in cells.values():
